@@ -436,6 +436,26 @@ def _(e, c, a, raw):
     if isinstance(v, Opaque): r = v
     else: r = Opaque('Path', v)
     return OK(r) if c.endswith('from_str') else r
+@model('Path::strip_prefix', 'PathBuf::strip_prefix', 're:^Path::strip_prefix::<.*>$')
+def _(e, c, a, raw):
+    """component-wise prefix removal, for a concrete single-component base without separators ('.', 'debian', ...)"""
+    v = deref(e, a[0]); b = deref(e, a[1])
+    pth = v.payload if isinstance(v, Opaque) else v
+    base = b.payload if isinstance(b, Opaque) else b
+    if not (isinstance(base, Str) and base.is_concrete()) or '/' in base.py() or base.py() == '': raise Unsupported('Path::strip_prefix with a symbolic or multi-component base')
+    bs = [ord(x) for x in base.py()]; ch = list(pth.chars)
+    if len(ch) < len(bs): return ERR(Agg('StripPrefixError', []))
+    for x, y in zip(ch, bs):
+        if not e.branch(s_eq(x, y)): return ERR(Agg('StripPrefixError', []))
+    rest = ch[len(bs):]
+    if rest:
+        if not e.branch(s_eq(rest[0], 47)): return ERR(Agg('StripPrefixError', []))      # the base must end at a component boundary
+        while rest and e.branch(s_eq(rest[0], 47)): rest = rest[1:]
+    # further '.' components would be normalised away by Path: not modelled
+    for i, x in enumerate(rest):
+        if e.branch(s_eq(x, 46)) and (i == 0 or e.branch(s_eq(rest[i - 1], 47))) and (i + 1 == len(rest) or e.branch(s_eq(rest[i + 1], 47))):
+            raise Unsupported('Path::strip_prefix: a "." component in the remainder')
+    return OK(Opaque('Path', Str(rest)))
 @model('Path::to_str', 'PathBuf::to_str')
 def _(e, c, a, raw): return SOME(deref(e, a[0]).payload)
 @model('Path::to_string_lossy', 'Path::display', 'PathBuf::display')
